@@ -72,7 +72,7 @@ def G(id, tu, fn, props, ins=(), setup='', call=None, ret=None, pre=None, post=N
       replace=(), loops=False, split=None, solvers=('cadical',), timeout=300, flags=(),
       min_obl=1, must=('postcondition',), unwind=None, bounded=None, enforce=True,
       native=True, tier='quick', body=None, extra_replace=(), note='', nondet_static=False,
-      sweep=None, reach=True, defs=(), direct=False, fix=None, loopinv=None):
+      sweep=None, reach=True, defs=(), direct=False, fix=None, loopinv=None, reach_hint=''):
     """Register an obligation group.
     ins: list of (ctype, name) scalar harness inputs (named in_*).
     setup: C statements building the real argument values from the inputs.
@@ -87,7 +87,7 @@ def G(id, tu, fn, props, ins=(), setup='', call=None, ret=None, pre=None, post=N
                       solvers=list(solvers), timeout=timeout, flags=list(flags), min_obl=min_obl,
                       must=list(must), unwind=unwind, bounded=bounded, enforce=enforce, native=native,
                       tier=tier, body=body, note=note, nondet_static=nondet_static, sweep=sweep,
-                      reach=reach, defs=list(defs), direct=direct, fix=dict(fix or {}), loopinv=loopinv)
+                      reach=reach, defs=list(defs), direct=direct, fix=dict(fix or {}), loopinv=loopinv, reach_hint=reach_hint)
     ORDER.append(id)
 
 
@@ -187,7 +187,9 @@ def harness_text(g, known, reach=False):
     name = ('r_' if reach else 'h_') + cid(g['id'])
     L = ['void %s(void)\n{' % name]
     if g['body'] is not None:
-        L.append(g['body'])
+        # /*REACH*/ marks where the reach twin (only) may pin inputs to a concrete witness: the twin only has to show that the
+        # precondition is satisfiable and the function returns, so pinning is sound there and makes the search cheap
+        L.append(g['body'].replace('/*REACH*/', g['reach_hint'] if reach else ''))
     else:
         for (ty, nm) in g['ins']:
             L.append('\t%s %s;' % (ty, nm))
